@@ -8,6 +8,7 @@ DigitalRFReader and by the extracted model under every listed variant of the two
 (metamorphic relations), so that a violation has a concrete replay."""
 import calendar
 import glob
+import json
 import os
 import re
 import shutil
@@ -203,7 +204,7 @@ def write_channel(spec):
     # again): the same file paths with other contents -- whatever a reader class remembers about a path across
     # reader objects is then wrong
     _REUSE[0] += 1
-    if _REUSE[0] % 2 == 0 and _REUSE[1]:
+    if (_REUSE[0] % 2 == 0 or spec.get("_reuse_root")) and _REUSE[1]:
         root = _REUSE[1]
         shutil.rmtree(root, ignore_errors=True)
         os.makedirs(root)
@@ -740,7 +741,20 @@ def run(res):
     totals = {v: 0 for v in VARIANTS}
     first_bad = {}
     keep = None
-    for spec in specs:
+    queue = []
+    for si, spec in enumerate(specs):
+        queue.append(spec)
+        if si % 3 == 1:
+            # the same directory names and (mostly) the same file names again, other contents: every block starts one
+            # sample later and is one sample shorter.  Whatever is remembered about a file PATH beyond the life of a
+            # reader object (class-level caches) is wrong now
+            s2 = json.loads(json.dumps(spec))
+            s2["dirs"] = [[[a + 1, max(1, ln - 1)] for a, ln in segs] for segs in spec["dirs"]]
+            s2["name"] = spec["name"] + "-rewritten-in-place"
+            s2["_reuse_root"] = True
+            s2["leftover"] = False
+            queue.append(s2)
+    for spec in queue:
         bad, ctx = check_channel(res, spec, VARIANTS)
         for v in VARIANTS:
             totals[v] += len(bad[v])
